@@ -39,7 +39,7 @@ ASSUMPTIONS = ['register and state values are generated inside their documented 
                'bin2sna is compared against its own output without the extra options (defaults such as I, IY are not modelled), except for what commands.rst '
                'documents: border 7, SP = PC = ORG, RAM = file at ORG',
                'a Z80 version 1 file cannot hold PC=0; such cases are skipped']
-MIN_NONTRIVIAL = {'quick': 60000, 'thorough': 200000}
+MIN_NONTRIVIAL = {'quick': 200000, 'thorough': 600000}
 
 FRAME = {'48K': 69888, '128K': 70908, '+2': 70908}
 MACHINES = ['48K', '128K', '+2']
@@ -57,12 +57,15 @@ def plan(tier, seed):
     specs = []
     for i in range(3):
         specs.append({'part': 'rle', 'first': i, 'timeout': to})
-    for i in range(2 if q else 3):
-        specs.append({'part': 'runs', 'shard': i, 'of': 2 if q else 3, 'timeout': to, 'budget_s': 45 if q else 900})
-    for i in range(4):
-        specs.append({'part': 'snap', 'shard': i, 'of': 4, 'timeout': to, 'budget_s': 38 if q else 900})
-    for i in range(2):
-        specs.append({'part': 'sweep', 'shard': i, 'of': 2, 'timeout': to, 'budget_s': 45 if q else 900})
+    n = 2 if q else 3
+    for i in range(n):
+        specs.append({'part': 'runs', 'shard': i, 'of': n, 'timeout': to, 'budget_s': 45 if q else 1000})
+    n = 4 if q else 5
+    for i in range(n):
+        specs.append({'part': 'snap', 'shard': i, 'of': n, 'timeout': to, 'budget_s': 38 if q else 900})
+    n = 2 if q else 1
+    for i in range(n):
+        specs.append({'part': 'sweep', 'shard': i, 'of': n, 'timeout': to, 'budget_s': 45 if q else 1000})
     for i in range(4):
         specs.append({'part': 'tool', 'shard': i, 'of': 4, 'timeout': to, 'budget_s': 38 if q else 900})
     specs.append({'part': 'sim', 'shard': 0, 'of': 1, 'timeout': to, 'budget_s': 38 if q else 900})
@@ -231,7 +234,7 @@ def is_szx_tstates_mechanism(fmt, st, diffs):
 def ram_arg(rng, ram):
     """The RAM argument as callers pass it: a list of 49152 ints, or 8 lists of 16384 ints (sometimes bytearrays, as with the C simulators)."""
     if isinstance(ram, (bytes, bytearray)):
-        return list(ram)
+        return bytearray(ram) if rng.random() < 0.15 else list(ram)
     if rng.random() < 0.15:
         return [bytearray(b) for b in ram]
     return [list(b) for b in ram]
@@ -310,6 +313,7 @@ def run_runs(shard, spec):
     z = _z80_instance()
     thorough = shard.tier == 'thorough'
     key_lengths = sorted(set(list(range(1, 9)) + list(range(252, 262)) + list(range(507, 516)) + [600, 764, 765, 766, 1020, 1021]))
+    key_set = set(key_lengths)
     n = 0
     for val in range(256):
         if val % spec['of'] != spec['shard']:
@@ -327,7 +331,7 @@ def run_runs(shard, spec):
         for L in lengths:
             for pi, pre in enumerate(prefixes):
                 for si, suf in enumerate(suffixes):
-                    if not thorough and val != 0xED and (pi + si + L) % 3 and L not in (4, 5, 255, 256):
+                    if val != 0xED and (pi + si + L) % 3 and (L not in (4, 5, 255, 256) if not thorough else L not in key_set):
                         continue
                     data = pre + bytes((val,)) * L + suf
                     check_block(shard, z, data, {'why': 'runs', 'val': val, 'len': L}, forms=(True, False) if (L + pi) % 2 == 0 or val == 0xED else (True,))
@@ -432,7 +436,7 @@ def snap_case(shard, part, case, tier_seed_rp=None):
     shard.hist('r_bit7', st['r'] >> 7)
     return ok
 
-N_SNAP = {'quick': 4000, 'thorough': 120000}
+N_SNAP = {'quick': 7000, 'thorough': 250000}
 
 def run_snap(shard, spec):
     n = N_SNAP[shard.tier]
@@ -1028,7 +1032,7 @@ def bin2sna_case(shard, case):
     for kind, spec, data in memopts:
         shard.hist('bin2sna_poke', 'paged' if ':' in spec.split(',')[0] else 'plain')
 
-N_TOOL = {'quick': 3000, 'thorough': 80000}
+N_TOOL = {'quick': 5000, 'thorough': 150000}
 
 def run_tool_part(shard, spec):
     n = N_TOOL[shard.tier]
@@ -1098,7 +1102,7 @@ def sim_case(shard, case):
     shard.case(('sim', machine, fmt, case, st['T'], big_t), True, sample={'part': 'sim', 'machine': machine, 'fmt': fmt, 'clock_at_save': big_t} if case < 1 else None)
     shard.hist('sim_clock', 'beyond_frame' if big_t else 'in_frame')
 
-N_SIM = {'quick': 700, 'thorough': 20000}
+N_SIM = {'quick': 1200, 'thorough': 30000}
 
 def run_sim(shard, spec):
     for case in range(spec['shard'], N_SIM[shard.tier], spec['of']):
